@@ -113,17 +113,17 @@ PROPS = {
         "explanation": "Theorems: fastcommit_order_sorted (ascending (owner,index) call order for every write set and fault plan), lt_strict_total, fastcommit_schedule_invariant (any worker count, any finishing schedule = sequential), nondet_commit_same_final_ledger (same ledger, call multiset equal), source_premises (worker closures write-free, pools reset before Put; regenerated). Oracle: byte-identical registers, identical observations and ordered call logs across all configurations and a fresh process.",
     },
     "C08": {
-        "streams": ["cache", "storage"], "driver": {"storage": "storage"}, "level": "proof",
+        "streams": ["cache", "compact", "storage"], "driver": {"storage": "storage"}, "level": "proof",
         "trusted_base": LEAN_TB, "assumptions": STORAGE_ASSUME + [
             "value-level model: clients re-fetch their handles after a cache drop / reopen (HandlesCurrent); stale-handle histories are outside the theorem (see DESIGN.md, finding F2)"],
-        "rule": "scripts of 250 array+map operations under maintenance schedules {never, commit after every op, commit+drop cache after every op, commit+reopen after every op, random, periodic}; distinct = distinct final ledgers",
+        "rule": "scripts of 250 array+map operations under maintenance schedules {never, commit after every op, commit+drop cache after every op, commit+reopen after every op, random, periodic}; plus same-typed inlined composite maps (compact encoding) under commit+drop-cache / commit+reopen every 1,2,5,8 operations with re-fetched handles; distinct = distinct final ledgers",
         "explanation": "Theorems: reload_is_identity, schedule_independent_outcomes, schedule_independent_ledger (any two schedules of {commit (both kinds), drop cache, commit+reopen} give the same observations, view and final ledger). Oracle: observations, final content, VerifyArray/VerifyMap and final registers equal across schedules on the real code.",
     },
     "C16": {
-        "streams": ["parallel", "storage"], "driver": {"storage": "storage"}, "level": "proof", "race": ["parallel"],
+        "streams": ["parallel", "parfault", "storage"], "driver": {"storage": "storage"}, "level": "proof", "race": ["parallel"],
         "trusted_base": LEAN_TB, "assumptions": STORAGE_ASSUME + [
             "NOT exhibited by the model (exercised under the Go race detector, not proved): data races in the Go memory model, real preemption, sync.Pool internals, concurrent writes to process-wide settings"],
-        "rule": "8 client goroutines with own storages running 200-op scripts concurrently (workers 1..64, both commits, ledger jitter, GOMAXPROCS 2/8/16) vs alone; parallel preload 1..64 workers vs sequential; the same stream again in a -race build",
+        "rule": "8 client goroutines with own storages running 200-op scripts concurrently (workers 1..64, both commits, ledger jitter, GOMAXPROCS 2/8/16) vs alone; parallel preload 1..64 workers vs sequential; the same stream again in a -race build; child processes running 8-worker commits/preloads that FAIL midway (ledger fault at call 0..3, corrupted register) with slow encoders - a crash of the child is a violation",
         "explanation": "Theorems about the message-passing model of the worker pools: pool_results_perm, pool_results_bounded (result channel never over capacity), pool_terminates, parallel_commit_sequential_equal, parallel_preload_sequential_equal. Oracle: results equal to sequential/alone runs; zero race-detector reports.",
     },
     "C18": {
